@@ -307,7 +307,7 @@ func flipCase(s string) string {
 }
 
 var c18Passwords = []string{"", "", "hunter2", "correct horse battery staple", "pässwörd-ünïcode", "密码パスワード🔑", " leading and trailing ", "tab\tand\nnewline", "a", strings.Repeat("long-password-", 22),
-	"ends-in-newline\n", "ends-in-crlf\r\n", "\n", " ", "ends in blank ", "\tstarts-with-tab", "e\u0301 decomposed", "\u00e9 composed"}
+	"ends-in-newline\n", "ends-in-crlf\r\n", "\n", " ", "ends in blank ", "\tstarts-with-tab", "e\u0301 decomposed", "\u00e9 composed", "caf\u00e9", "cafe\u0301", "m\u00fcll-\u00e9"}
 
 func TestC18(t *testing.T) {
 	rapid.Check(t, func(t *rapid.T) {
@@ -328,6 +328,13 @@ func TestC18(t *testing.T) {
 		}
 		// differences a sloppy normalisation would erase: white space at the ends, line ends
 		cands = append(cands, c.Password+"\n", c.Password+"\r\n", c.Password+" ", " "+c.Password, strings.TrimSpace(c.Password), strings.TrimRight(c.Password, "\r\n"), strings.ToLower(c.Password))
+		// the same text in the other Unicode normalisation form is a different password
+		if alt := strings.NewReplacer("\u00e9", "e\u0301", "\u00fc", "u\u0308").Replace(c.Password); alt != c.Password {
+			cands = append(cands, alt)
+		}
+		if alt := strings.NewReplacer("e\u0301", "\u00e9", "u\u0308", "\u00fc").Replace(c.Password); alt != c.Password {
+			cands = append(cands, alt)
+		}
 		cands = rapid.Permutation(cands).Draw(t, "wrong_order")
 		nw := rapid.IntRange(1, 3).Draw(t, "nwrong")
 		if c.Format == "minisign" {
